@@ -118,7 +118,9 @@ def build(work, tier):
         proofs += fixpoint_proofs(kit, c, classes, kind='bounded', unwind=4, bound_text=LIST_BOUND + '; foreign elements with more matching children are outside the stand-in')
     proofs += table_proofs(kit)
     if tier != 'thorough':
-        proofs = [p for p in proofs if not (getattr(p, 'finding', None) and p.id.split('_fixpoint')[0] in ('Sasl2Success', 'Sasl2StreamFeature'))]
+        # quick tier: the finding-restricted runs of the two largest composites only repeat what the member codec's own run
+        # reports, and the (bounded, 160 s) fixpoint run of Sasl2::StreamFeature is left to the thorough tier
+        proofs = [p for p in proofs if not ((getattr(p, 'finding', None) and p.id.split('_fixpoint')[0] in ('Sasl2Success', 'Sasl2StreamFeature')) or p.id.startswith('Sasl2StreamFeature_'))]
     text_all = open(os.path.join(QT, 'xml.h')).read() + open(os.path.join(QT, 'conv.h')).read() + open(os.path.join(QT, 'opaque.h')).read() + codec.MODEL_GLUE
     npad = sum(t.count('xw_pad(') for t in kit.texts.values())
     return {
